@@ -147,7 +147,27 @@ static int do_list(int const *v, int n, FILE *fo)
     put_seq(fo, L1, n1);
     fputs(",\"L2\":", fo);
     put_seq(fo, L2, n2);
-    fputs("}\n", fo);
+    /* what the traversal macros (both spellings, plain and removal-safe) visit from each head */
+    fputs(",\"mac\":[", fo);
+    for (int q = 1; q <= 2; ++q)
+    {
+        int vis[6][MAXID + 2], nv[6] = {0, 0, 0, 0, 0, 0};
+        a_list *it, *at, *hd = &ln[K + q];
+#define VISIT(k, x) do { if (nv[k] <= MAXID) { vis[k][nv[k]++] = lid(x); } else { goto done##k; } } while (0)
+        A_LIST_FOREACH_NEXT(it, hd) { VISIT(0, it); } done0:;
+        A_LIST_FOREACH_PREV(it, hd) { VISIT(1, it); } done1:;
+        a_list_foreach_next(jt, hd) { VISIT(2, jt); } done2:;
+        a_list_foreach_prev(jt, hd) { VISIT(3, jt); } done3:;
+        A_LIST_FORSAFE_NEXT(it, at, hd) { VISIT(4, it); } done4:;
+        A_LIST_FORSAFE_PREV(it, at, hd) { VISIT(5, it); } done5:;
+#undef VISIT
+        for (int k = 0; k < 6; ++k)
+        {
+            fputs(q == 1 && k == 0 ? "" : ",", fo);
+            put_seq(fo, vis[k], nv[k]);
+        }
+    }
+    fputs("]}\n", fo);
     ++n_events;
     return 0;
 }
@@ -223,14 +243,31 @@ static int do_slist(int const *v, int n, FILE *fo)
     put_seq(fo, L1, n1);
     fputs(",\"L2\":", fo);
     put_seq(fo, L2, n2);
-    fputs("}\n", fo);
+    fputs(",\"mac\":[", fo);
+    for (int w = 1; w <= 2; ++w)
+    {
+        int vis[3][MAXID + 2], nv[3] = {0, 0, 0};
+        a_slist_node *it, *at;
+#define VISIT(k, x) do { if (nv[k] <= MAXID) { vis[k][nv[k]++] = sid(x, K); } else { goto sdone##k; } } while (0)
+        A_SLIST_FOREACH(it, &sl[w]) { VISIT(0, it); } sdone0:;
+        a_slist_foreach(jt, &sl[w]) { VISIT(1, jt); } sdone1:;
+        A_SLIST_FORSAFE(it, at, &sl[w]) { VISIT(2, it); } sdone2:;
+#undef VISIT
+        for (int k = 0; k < 3; ++k)
+        {
+            fputs(w == 1 && k == 0 ? "" : ",", fo);
+            put_seq(fo, vis[k], nv[k]);
+        }
+    }
+    fputs("]}\n", fo);
     ++n_events;
     return 0;
 }
 
 /* ------------------------------------------------------------------ a_que */
 static char const *qop[] = {"?", "push_back", "push_fore", "insert", "pull_back", "pull_fore", "remove", "at", "fore", "back",
-                            "sort_fore", "sort_back", "push_sort", "swap_elems", "swap_queues", "drop", "setz"};
+                            "sort_fore", "sort_back", "push_sort", "swap_elems", "swap_queues", "drop", "setz", "walk"};
+static struct { int fwd[64], fwd2[64], rev[64], rev2[64], nf, nf2, nr, nr2, acc, num, siz; } qwalk;
 static void *addr_tab[64];
 static int n_addr;
 static int aid(void *p)
@@ -389,7 +426,7 @@ static int do_que(int const *v, int n, FILE *fo)
     int z1 = v[6], z2 = v[7], p1 = v[8], p2 = v[9], n1 = v[10], n2 = v[11];
     int z1b = v[12], z2b = v[13], p1b = v[14], p2b = v[15], n1b = v[16], n2b = v[17];
     int const *s1 = v + 18, *s2 = s1 + n1, *s1b = s2 + n2, *s2b = s1b + n1b;
-    if (n != 18 + n1 + n2 + n1b + n2b || op < 1 || op > 16) { fprintf(stderr, "bad que edge\n"); return 3; }
+    if (n != 18 + n1 + n2 + n1b + n2b || op < 1 || op > 17) { fprintf(stderr, "bad que edge\n"); return 3; }
     snprintf(cur_desc, sizeof(cur_desc), "\"kind\":\"que\",\"op\":\"%s\",\"a1\":%d,\"a2\":%d,\"n\":%d,\"pool\":%d,\"siz\":%d", qop[op], a1, a2, n1, p1, z1);
     op_cnt[2][op]++;
     a_que q[3];
@@ -415,7 +452,16 @@ static int do_que(int const *v, int n, FILE *fo)
     put_que(fo, &q[1], 1);
     fputs(",\"q2\":", fo);
     put_que(fo, &q[2], 1);
-    fprintf(fo, "},\"ret\":%d,\"val\":%d,\"rc\":%d}\n", rid, rval, rc);
+    fprintf(fo, "},\"ret\":%d,\"val\":%d,\"rc\":%d", rid, rval, rc);
+    if (op == 17)
+    {
+        fputs(",\"walk\":{\"fwd\":[", fo); for (int i = 0; i < qwalk.nf; ++i) { fprintf(fo, i ? ",%d" : "%d", qwalk.fwd[i]); }
+        fputs("],\"fwd2\":[", fo); for (int i = 0; i < qwalk.nf2; ++i) { fprintf(fo, i ? ",%d" : "%d", qwalk.fwd2[i]); }
+        fputs("],\"rev\":[", fo); for (int i = 0; i < qwalk.nr; ++i) { fprintf(fo, i ? ",%d" : "%d", qwalk.rev[i]); }
+        fputs("],\"rev2\":[", fo); for (int i = 0; i < qwalk.nr2; ++i) { fprintf(fo, i ? ",%d" : "%d", qwalk.rev2[i]); }
+        fprintf(fo, "],\"acc\":%d,\"num\":%d,\"siz\":%d}", qwalk.acc, qwalk.num, qwalk.siz);
+    }
+    fputs("}\n", fo);
     ++n_events;
     /* native comparison of the abstract projection */
     int ok = 1;
@@ -506,7 +552,7 @@ int main(int argc, char **argv)
     for (int f = 0; f < 3; ++f)
     {
         printf(f ? ",[" : "[");
-        for (int i = 0; i < 17; ++i) { printf(i ? ",%ld" : "%ld", op_cnt[f][i]); }
+        for (int i = 0; i < 18; ++i) { printf(i ? ",%ld" : "%ld", op_cnt[f][i]); }
         printf("]");
     }
     printf("]}\n");
